@@ -10,6 +10,7 @@ import (
 	"sort"
 	"sync"
 	"time"
+	"verif/refcff"
 	"verif/refsfnt"
 
 	"golang.org/x/image/font/gofont/goregular"
@@ -358,6 +359,13 @@ func init() {
 					return
 				}
 				ref = buf.Bytes()
+				if mode >= 14 && fo.name == "cid-6" {
+					fo = &c18Font{name: "assembled CFF data ending in four local subroutines", font: fo.font}
+					// (in place of a second font written by the library:) CFF data as other producers lay it
+					// out, ending in a non-empty INDEX (local subroutines no glyph calls)
+					ref = refcff.Assemble(&refcff.AsmSpec{Name: "Other", CharStrings: [][]byte{{14}, {239, 139, 21, 189, 189, 5, 14}}, GlyphNames: []string{"A"},
+						Privates: []refcff.AsmPrivate{{DefaultWidthX: 500, LocalSubrs: [][]byte{{11}, {139, 11}, {189, 189, 5, 11}, {11}}}}})
+				}
 			default:
 				ref = fo.file
 			}
